@@ -278,6 +278,61 @@ fn leaf_index_bound(ev: &Evidence, rng: &mut SplitMix) -> Result<(), Violation> 
     Ok(())
 }
 
+/// Node lookups in an exported tree (`ExportedTree::get_parent` / `get_leaf`, documented to fail for an index that is out of
+/// range): a node vector of `len` entries stands for the tree with `npot((len + 1) / 2)` leaves (trailing blanks are not
+/// stored); every index of that tree is answered, every index beyond it is an error.
+fn exported_tree_bounds(ev: &Evidence, rng: &mut SplitMix) -> Result<(), Violation> {
+    use mls_rs::group::ExportedTree;
+    let mut lens: Vec<usize> = (1..=129).step_by(2).collect();
+    for k in 7..=13 {
+        lens.extend([(1usize << k) - 1, (1 << k) + 1, (1 << k) + 1 + 2 * rng.below(1 << (k - 1)) as usize]);
+    }
+    for len in lens {
+        let mut b = vec![];
+        crate::refmodel::tls::put_opaque(&mut b, &vec![0u8; len]);
+        let Ok(t) = ExportedTree::from_bytes(&b) else {
+            return Err(fail("exported_tree_of_blanks_not_decodable", 0, len as u64, String::new()));
+        };
+        let leaves = len.div_ceil(2).next_power_of_two() as u64;
+        let width = 2 * leaves - 1;
+        let mut probes = vec![0u64, len as u64 - 1, len as u64, width - 1, width, width + 1, 2 * width, 2 * width + 1, u32::MAX as u64];
+        for _ in 0..8 {
+            probes.push(rng.below(2 * width + 4));
+        }
+        for i in probes {
+            let inside = i < width;
+            let got = t.get_parent(i as u32).is_ok();
+            if got != inside {
+                return Err(fail(
+                    if inside { "node_lookup_refuses_index_in_tree" } else { "node_lookup_accepts_index_outside_tree" },
+                    leaves as u32,
+                    i,
+                    format!("ExportedTree of {len} nodes ({leaves} leaves, indices 0..={}): get_parent({i}) is_ok = {got}", width - 1),
+                ));
+            }
+            if i % 2 == 0 {
+                if let Ok(li) = LeafIndex::try_from((i / 2) as u32) {
+                    let got = t.get_leaf(li).is_ok();
+                    if got != inside {
+                        return Err(fail(
+                            if inside { "leaf_lookup_refuses_index_in_tree" } else { "leaf_lookup_accepts_index_outside_tree" },
+                            leaves as u32,
+                            i,
+                            format!("ExportedTree of {len} nodes ({leaves} leaves): get_leaf({}) is_ok = {got}", i / 2),
+                        ));
+                    }
+                }
+            }
+            ev.eval(1);
+            if !inside {
+                ev.nontrivial(&("bounds", len, i));
+            }
+        }
+    }
+    ev.class("exported_tree_index_bounds");
+    Ok(())
+}
+
 /// Calibration of the reference model itself against the IETF tree-math vector.
 fn calibrate() -> Result<(), String> {
     let path = format!("{VERIF_ROOT}/vectors/tree_math.json");
@@ -313,7 +368,7 @@ pub fn run(ctx: &Ctx) -> ! {
         "exhaustive: every leaf count n = 2^k (k = 0..12) and every node x in [0, 2n-2] plus indices just outside \
          and far outside; every leaf pair for k <= 10; sampled: nodes of trees with 2^13..2^24 leaves (biased to root, \
          edges and every level) and random leaf pairs; oracle = recursive left-balanced-tree definition (refmodel::treemath), \
-         calibrated on the IETF tree_math vector. Non-trivial = (n, x) with x not a leaf or n >= 4 (distinct by value), \
+         calibrated on the IETF tree_math vector. Node / leaf lookups (ExportedTree::get_parent / get_leaf) on node vectors of every odd length up to 129 and around 2^7..2^13: Ok exactly for the indices of the tree, also at the first index after it. Non-trivial = (n, x) with x not a leaf or n >= 4 (distinct by value), \
          distinct leaf pairs a != b, outside-tree probes.",
     );
     ev.assume("the reference model refmodel::treemath (recursive definition) is correct; it is calibrated on the IETF tree_math vectors before use");
@@ -353,6 +408,7 @@ pub fn run(ctx: &Ctx) -> ! {
             }
         }
         leaf_index_bound(&ev, &mut rng)?;
+        exported_tree_bounds(&ev, &mut rng)?;
         Ok(())
     })();
 
